@@ -220,7 +220,7 @@ func runC11(args []string) {
 		for i := 0; i < n; i++ {
 			c := c11RandomCase(rng)
 			c["rot"] = i
-			add(c11Event(c, newRand(int64(i), "c11")))
+			add(c11Event(normalize(c), newRand(int64(i), "c11")))
 		}
 	}
 	writeSummary(fl.str("summary", ""), obj{"events": tw.n, "accepted": accepted, "samples": samples})
